@@ -156,9 +156,12 @@ var c17SameText = []struct {
 	{"SELECT [[1], 'x'] AS v, id FROM t WHERE id = 1", 2, "SELECT ARRAY(ARRAY(1), 'x') AS v, id FROM t WHERE id = 1", ""},
 }
 
-func (p *c17) NumCases() int { return len(p.cases) }
+func (p *c17) NumCases() int { return len(p.cases) + 1 }
 
 func (p *c17) Describe(i int) any {
+	if i == len(p.cases) {
+		return map[string]any{"kind": "Wrapped() against {root: input} when the caller changes the input after New: 7 queries x every sequence of two of 5 changes (first between New and Exec, second between two Execs)"}
+	}
 	c := p.cases[i]
 	switch c.kind {
 	case "ident":
@@ -252,6 +255,10 @@ func classOf(s string) string {
 func (p *c17) RunCase(i int) *core.CaseResult {
 	defer withNoise()()
 	r := &core.CaseResult{}
+	if i == len(p.cases) {
+		runChangedC17(r)
+		return r
+	}
 	c := p.cases[i]
 	combos := optCombos()
 	switch c.kind {
